@@ -592,17 +592,27 @@ def _admin_gated(f, call):
                                      'context.ctx().is_admin or insecure')
                            for v in vals):
             return False
+    def arms(n):
+        """(arm taken when insecure is true, the other arm) of a choice
+        whose test is `insecure` or `not insecure`; None otherwise."""
+        t, neg = n.test, False
+        while isinstance(t, ast.UnaryOp) and isinstance(t.op, ast.Not):
+            t, neg = t.operand, not neg
+        if norm(t) != 'insecure':
+            return None
+        a, b = n.body, n.orelse
+        return (b, a) if neg else (a, b)
+
+    def has(part, pred):
+        parts = part if isinstance(part, list) else [part]
+        return any(pred(y) for p_ in parts for y in ast.walk(p_))
     for n in own_nodes(f.node):
-        if isinstance(n, ast.IfExp) and norm(n.test) == 'insecure' and \
-                any(x is call for x in ast.walk(n.body)):
-            return any(isinstance(y, ast.Call) and
-                       U.call_name(y) == '_secure_query'
-                       for y in ast.walk(n.orelse))
-        if isinstance(n, ast.If) and norm(n.test) == 'insecure' and \
-                any(x is call for b in n.body for x in ast.walk(b)):
-            return any(isinstance(y, ast.Call) and
-                       U.call_name(y) == '_secure_query'
-                       for b in n.orelse for y in ast.walk(b))
+        if isinstance(n, (ast.IfExp, ast.If)):
+            ab = arms(n)
+            if ab is None or not has(ab[0], lambda y: y is call):
+                continue
+            return has(ab[1], lambda y: isinstance(y, ast.Call) and
+                       U.call_name(y) == '_secure_query')
     return False
 
 
